@@ -111,11 +111,12 @@ Qed.
 (* ------------------------------------------------------------------ *)
 Definition aead_like (d : pkd) : bool :=
   match d with
-  | PAesGcm _ | PAesGcmSiv _ | PAesCtrHmac _ _ _ _ _ | PAesSiv _ => true
+  | PAesGcm _ | PAesGcmSiv _ | PAesCtrHmac _ _ _ _ _ | PAesSiv _ | PChaCha _ | PXChaCha _ => true
   | _ => false
   end.
 Definition url_collapses (u : bytes) : bool :=
-  beq u u_aes_gcm || beq u u_aes_gcm_siv || beq u u_aes_ctr_hmac || beq u u_aes_siv.
+  beq u u_aes_gcm || beq u u_aes_gcm_siv || beq u u_aes_ctr_hmac || beq u u_aes_siv
+  || beq u u_chacha || beq u u_xchacha.
 (* the prefix type reported for a key of type URL u that came in with prefix p *)
 Definition reported_prefix (u : bytes) (p : N) : N :=
   if url_collapses u && (p =? pt_legacy) then pt_crunchy else p.
@@ -161,7 +162,10 @@ Proof.
     inversion H; subst. cbn [aead_like]. rhs_compute. reflexivity. }
   destruct (beq (kd_url kd) u_rsa_pkcs1_pub) eqn:E12; [scalar_branch E12|].
   destruct (beq (kd_url kd) u_rsa_pss_pub) eqn:E13; [scalar_branch E13|].
-  intros H. apply okb_ok in H. destruct H as [_ ->]. unfold url_collapses. rewrite E3, E4, E5, E6. reflexivity.
+  destruct (beq (kd_url kd) u_chacha) eqn:E14; [scalar_branch E14|].
+  destruct (beq (kd_url kd) u_xchacha) eqn:E15; [scalar_branch E15|].
+  destruct (beq (kd_url kd) u_xaes_gcm) eqn:E16; [scalar_branch E16|].
+  intros H. apply okb_ok in H. destruct H as [_ ->]. unfold url_collapses. rewrite E3, E4, E5, E6, E14, E15. reflexivity.
 Qed.
 
 (* what an entry reports, in terms of the key it was made from *)
